@@ -23,6 +23,16 @@ def run(tier, seed, replay_path=None):
         return [inp.cas == 0 for p in progs for c, inp in p if c == 'set']
     progs = [[['delete'], ['set']], [['delete'], ['delete']]] + ([] if tier == 'quick' else [[['delete'], ['set'], ['get']], [['delete', 'get'], ['set']]])
     ck.fork_map(progs, lambda c, names: explore_program(c, names, constraints=set_cas0))
+    # expiry under concurrency: an item that is past its deadline (its own TTL, or a delayed flush that has come due) stays
+    # unretrievable whatever another client does to the key meanwhile (all schedules, linearizability against the reference)
+    from .conc_checks import explore_program
+    import z3 as _z3
+
+    def expired_item(progs, st):
+        return [st.present[0], _z3.Not(st.live(0))] + [inp.cas == 0 for p in progs for c_, inp in p if c_ in ('set', 'add')]
+    # (a delete meeting an expired-but-uncollected item has no contract - memc-rs reports it as removed - and is left out)
+    cprogs = [[['get'], ['get']], [['get'], ['set']], [['get'], ['add']]]
+    ck.fork_map(cprogs, lambda c, names: explore_program(c, names, constraints=expired_item, allow_stale=True))
     return ck.finish()
 
 
